@@ -202,6 +202,13 @@ func c14AuthIDs(version string, ev jv) []string {
 
 // c14Allowed: R-auth's verdict on the event against the given auth events.
 func c14Allowed(version string, ev jv, auth []jv) (allow bool, rule string, unjudged string) {
+	// only state events can be auth events: an entry of auth_events that is, say, a message is not
+	// something the selection rule can ever name, and the event citing it is not allowed
+	for _, a := range auth {
+		if sk, ok := a.get("state_key"); !ok || sk.K != 's' {
+			return false, "A0.auth-event-is-not-a-state-event", ""
+		}
+	}
 	st := raBuildState(version, auth)
 	if why := raUnjudged(st); why != "" {
 		return false, "", why
@@ -650,6 +657,8 @@ type c14World struct {
 	r       *grRoom
 	before  []map[string]int // state the event's auth events were selected from
 	tainted []bool           // built on a state that contains a rejected event
+	// extraAuth: events the NEXT addAt names in auth_events besides the selected ones
+	extraAuth []int
 }
 
 func c14CopyState(st map[string]int) map[string]int {
@@ -678,10 +687,16 @@ func (w *c14World) addAt(parent int, state map[string]int, typ, sender string, s
 			}
 		}
 	}
+	for _, i := range w.extraAuth {
+		e.Auth = append(e.Auth, i)
+		authTrees = append(authTrees, r.Events[i].Tree)
+		spec.Auth = append(spec.Auth, r.Events[i].ID)
+	}
+	w.extraAuth = nil
 	spec.ID = fmt.Sprintf("$x%d:%s", e.Idx, c14Domain(sender))
 	e.Tree = raJSON(r.Version, spec)
 	e.ID = raEventID(r.Version, e.Tree)
-	allow, _ := rauth(r.Version, raBuildState(r.Version, authTrees), e.Tree)
+	allow, _, _ := c14Allowed(r.Version, e.Tree, authTrees)
 	e.Rejected = !allow
 	e.State = state
 	if !e.Rejected && stateKey != nil {
@@ -712,7 +727,42 @@ func c14GenWorld(t *rapid.T, minEvents, maxEvents int) *c14World {
 	if c14Chance(t, "taint", 80) {
 		w.taint(t)
 	}
+	if c14Chance(t, "citeNonState", 15) {
+		w.citeNonState(t)
+	}
 	return w
+}
+
+// citeNonState: a joined user's membership event (a profile change) that names a message event of
+// the room among its auth events, followed by an event of that user built on the state "as if it had
+// been accepted". Only state events can be auth events, so the first is not allowed by its auth
+// events and the second has a disallowed event in its chain.
+func (w *c14World) citeNonState(t *rapid.T) {
+	r := w.r
+	at := rapid.IntRange(1, len(r.Events)-1).Draw(t, "citeAt")
+	st := r.Events[at].State
+	var joined []string
+	for _, u := range grUsers {
+		if r.memOf(st, u) == "join" {
+			joined = append(joined, u)
+		}
+	}
+	if len(joined) == 0 {
+		return
+	}
+	author := rapid.SampledFrom(joined).Draw(t, "citedAuthor")
+	msg := w.addAt(at, st, "m.room.message", author, nil, jobj("msgtype", jstr("m.text"), "body", jstr("not an auth event")), false)
+	if msg.Rejected {
+		return
+	}
+	u := rapid.SampledFrom(joined).Draw(t, "citeUser")
+	w.extraAuth = []int{msg.Idx}
+	e := w.addAt(msg.Idx, st, "m.room.member", u, raSK(u), jobj("membership", jstr("join"), "displayname", jstr("cites a message")), true)
+	st2 := c14CopyState(st)
+	st2[grKey("m.room.member", u)] = e.Idx
+	if c14Chance(t, "citeChild", 70) {
+		w.addAt(e.Idx, st2, "org.example.state", u, raSK(u), jobj("v", jstr("after")), true)
+	}
 }
 
 // taint picks (or manufactures) a rejected state event R and builds 1-3 events on top of the state
